@@ -52,8 +52,10 @@ def units(tier, seed):
     for r in rows:
         if r["space"] == "big":
             for n in r["ops"]:
-                for gram in (0, 1):
+                for gram in (0, 1, 2):
                     out.append({"space": "big", "ops": n, "gram": gram})
+    from pgmc import longfam
+    out += longfam.units((11, 12) if tier == "quick" else (11, 12, 13, 14))
     return out
 
 
@@ -207,14 +209,18 @@ def big_unit(u):
     from pgmc.drive import Monitor, build, grammar_from_string, parse
     from pgmc.findings import Judge
     n = u["ops"]
-    gram = ['E: E "+" E | "n";', 'E: E "+" E | E "*" E | "n";'][u["gram"]]
-    nops = 1 + u["gram"]
+    gram = ['E: E "+" E | "n";', 'E: E "+" E | E "*" E | "n";',
+            # seven operators: more than ten LR states, so that frontier
+            # numbers and state ids both reach two digits on these inputs
+            'E: E "+" E | E "*" E | E "-" E | E "/" E | E "^" E | E "%" E '
+            '| E "&" E | "n";'][u["gram"]]
+    nops = [1, 2, 7][u["gram"]]
     mon = Monitor()
     judge = Judge(PROP, KNOWN)
     g = grammar_from_string(gram)
     p = build("glr", g, mon, ws="")
-    ops = "+*"
-    s = "n" + "".join(ops[i % nops] + "n" for i in range(n))
+    ops = "+*-/^%&"
+    s = "n" + "".join(ops[(i * 3) % nops] + "n" for i in range(n))
     # reference: number of binary trees over n+1 leaves (operators fixed by
     # the input) = Catalan(n)
     cat = [1]
@@ -267,6 +273,9 @@ def big_unit(u):
 def run_unit(u):
     if u["space"] == "big":
         return big_unit(u)
+    if u["space"] == "long":
+        from pgmc import longfam
+        return longfam.run(u, PROP, KNOWN, "count")
     if u.get("filter"):
         return glrsweep.sweep(u, PROP, KNOWN, check_case,
                               parser_opts={"dynamic_filter": accept_all})
